@@ -381,6 +381,18 @@ ADDED11 = {
 for _pid, _t in ADDED11.items():
     CLAIMED[_pid]["text"] += " Round 11: " + _t
 
+ADDED12 = {
+ "C02": "(Q17) either retRearrangeSet redirects writes of a retyped parameter like retRearrangeVar redirects reads, or the selection of parameters in rtcRearrangeProg stays switched off (its symeIndex test compares with -1).",
+ "C03": "(T17) every function outside bigint.c that uses the place vector bintToPlacevS returns (beyond releasing it) also consults the sign.",
+ "C04": "(B13) the FOAM_BInt case of the interpreter's evaluator produces the constant with bintFrPlacevS and nothing else.",
+ "C08": "(D10) includeFile assigns the per-file assert list the result of a copying call of the invocation's list.",
+ "C11": "(N11) INT_MIN_IMMED + INT_MAX_IMMED == 0 as the front end evaluates them (immediates are negated without a range check).",
+ "C15": "(P14) the TAB branch of scAdvance0, evaluated for every column 0..63, moves the column forward to the cell before a tab stop.",
+ "C17": "(R10) the result of every strtol in archive.c is tested against zero before it is accepted.",
+}
+for _pid, _t in ADDED12.items():
+    CLAIMED[_pid]["text"] += " Round 12: " + _t
+
 def main():
     checks = []
     for pid in sorted(CLAIMED):
